@@ -9,10 +9,10 @@ from csvpath import CsvPaths
 METHODS = ["collect_paths", "fast_forward_paths", "next_paths", "collect_by_line", "fast_forward_by_line", "next_by_line"]
 
 
-def new_csvpaths(policy=None, csvpath_policy=None):
+def new_csvpaths(policy=None, csvpath_policy=None, delimiter=",", quotechar='"'):
     """a CsvPaths whose member CsvPaths are instrumented (matcher script recorded) and use the
     given error policy"""
-    cp = CsvPaths()
+    cp = CsvPaths(delimiter=delimiter, quotechar=quotechar)
     if policy is not None:
         cp.config.csvpaths_errors_policy = policy
     cp._verif_members = []
